@@ -11,15 +11,16 @@
 
 #include <librfn/rotenc.h>
 
-enum { F_BOUNCE, F_REPEAT, F_MISSED, F_REVERSAL, F_RANDOM_STATE };
+enum { F_BOUNCE, F_REPEAT, F_MISSED, F_REVERSAL, F_RANDOM_STATE, F_PERIODIC };
 static const char *const fault_names[] = { "bounce", "repeat_sample", "missed_sample",
-					   "reversal", "random_state", NULL };
+					   "reversal", "random_state", "periodic_signal", NULL };
 enum { P_WRAP8_UP, P_WRAP8_DOWN, P_WRAP16_UP, P_WRAP16_DOWN, P_NEG, P_OFF_DETENT_READ,
-       P_LATCH, P_LONG_WALK };
+       P_LATCH, P_LONG_WALK, P_LONG_DWELL, P_LONG_OFF_DETENT };
 static const char *const probe_names[] = { "crossed_256_clicks_up", "crossed_256_clicks_down",
 					   "crossed_16384_clicks_up", "crossed_16384_clicks_down",
 					   "position_negative", "read_while_off_detent",
-					   "latched_at_detent", "walk_over_10000_samples", NULL };
+					   "latched_at_detent", "walk_over_10000_samples",
+					   "same_state_over_250_samples", "over_700_samples_without_detent", NULL };
 
 static const uint8_t gray[4] = { 0, 1, 3, 2 };	/* clockwise order */
 static const uint8_t gidx[4] = { 0, 1, 3, 2 };	/* state -> index  */
@@ -128,6 +129,7 @@ static void run(void)
 	uint32_t w_rev = sim_choose(2) ? sim_choose(12) : 0;
 	uint32_t w_miss = sim_choose(3) == 1 ? sim_choose(8) : 0;
 	uint32_t w_rand = sim_choose(4) == 1 ? sim_choose(6) : 0;
+	uint32_t w_periodic = sim_choose(3) == 1 ? 1 + sim_choose(3) : 0;	/* per 256 samples */
 	sim_ev("hdr", mode, start, dir);
 
 	/* drive quickly to the start position through the public API (checked at the end) */
@@ -140,6 +142,25 @@ static void run(void)
 	for (uint32_t i = 0; i < len && !sim_tape_done(); i++) {
 		sim_seg();
 		uint8_t st;
+		if (w_periodic && sim_choose(256) < w_periodic) {
+			/* a periodic signal: a resting knob polled for a long time, a fast spin aliased by the
+			 * sampling rate, mains hum on the lines - a pattern of 1-4 states many times over */
+			static const uint16_t reps[] = { 2, 3, 10, 100, 254, 255, 256, 257, 300, 768, 1024, 2000 };
+			uint8_t pat[4];
+			uint32_t plen = 1 + sim_choose(4), n = reps[sim_choose(12)];
+			for (uint32_t k = 0; k < plen; k++)
+				pat[k] = sim_choose(4);
+			sim_fault(F_PERIODIC);
+			if (plen == 1 && n > 250)
+				sim_probe(P_LONG_DWELL);
+			if (n * plen > 700 && !(pat[0] == 0 || (plen > 1 && pat[1] == 0) || (plen > 2 && pat[2] == 0) || (plen > 3 && pat[3] == 0)))
+				sim_probe(P_LONG_OFF_DETENT);
+			for (uint32_t j = 0; j < n; j++)
+				for (uint32_t k = 0; k < plen; k++)
+					feed(pat[k], true);
+			shaft = (shaft & ~3ll) | gidx[mstate];
+			continue;
+		}
 		if (mode == 3) {
 			st = sim_choose(4);
 			sim_fault(F_RANDOM_STATE);
@@ -179,7 +200,7 @@ const sim_harness_t sim_harness = {
 	.min_ops = 20,
 	.rule = "one case = one seeded walk of a simulated shaft (start position next to a wrap "
 		"point, momentum, per-run fault rates for bounce/repeat/missed-sample/reversal/"
-		"garbage) decoded sample by sample; non-trivial = at least 20 samples and at "
+		"garbage, periodic patterns of 1-4 states repeated 2-2000 times) decoded sample by sample; non-trivial = at least 20 samples and at "
 		"least one line fault or wrap/latch probe fired; distinct = distinct hash of the "
 		"(state, count, count14) event sequence",
 	.real = "librfn/rotenc.c, rotenc.h (rotenc_decode, rotenc_count, rotenc_count14)",
